@@ -39,4 +39,57 @@ theorem number_exact (n : Num) (h : n.WF) : decValue (atofDec n.text) = numValue
   push_cast
   field_simp
 
+theorem natVal_fold_le (d : List UInt8) (hd : IsDigits d) (y : Nat) :
+    d.foldl (fun y c => 10 * y + (c.toNat - 48)) y + 1 ≤ (y + 1) * 10 ^ d.length := by
+  induction d generalizing y with
+  | nil => simp
+  | cons c t ih =>
+    have hc := hd c (by simp)
+    have h57 : c.toNat ≤ 57 := UInt8.le_iff_toNat_le.mp hc.2
+    have ht : IsDigits t := fun x hx => hd x (by simp [hx])
+    simp only [List.foldl_cons, List.length_cons]
+    have := ih ht (10 * y + (c.toNat - 48))
+    calc _ ≤ (10 * y + (c.toNat - 48) + 1) * 10 ^ t.length := this
+      _ ≤ (10 * y + 10) * 10 ^ t.length := Nat.mul_le_mul_right _ (by omega)
+      _ = (y + 1) * 10 ^ (t.length + 1) := by ring
+
+theorem natVal_lt (d : List UInt8) (hd : IsDigits d) : natVal d < 10 ^ d.length := by
+  have := natVal_fold_le d hd 0
+  unfold natVal
+  omega
+
+theorem number_in_range (n : Num) (h : n.WF) (hr : n.InRange) :
+    0 ≤ (atofDec n.text).mant ∧ (atofDec n.text).mant < 2 ^ 63 ∧
+    -(2 ^ 31 : Int) < (atofDec n.text).exp ∧ (atofDec n.text).exp < 2 ^ 31 := by
+  rw [atofDec_text n h]
+  simp only
+  obtain ⟨hlen, hexp⟩ := hr
+  have hdig : IsDigits (n.ip ++ n.fracDigits) := by
+    intro c hc
+    rcases List.mem_append.mp hc with e | e
+    · exact h.1 c e
+    · exact h.2.1 c e
+  have hm := natVal_lt _ hdig
+  have hpow : (10 : Nat) ^ (n.ip ++ n.fracDigits).length ≤ 10 ^ 18 :=
+    Nat.pow_le_pow_right (by norm_num) (by simpa using hlen)
+  have hf : n.fracDigits.length ≤ 18 := by omega
+  have he : -(10 ^ 9 : Int) < n.expVal ∧ n.expVal < 10 ^ 9 := by
+    unfold Num.expVal
+    cases hx : n.exp with
+    | none => simp
+    | some v =>
+      obtain ⟨e, sgn, ed⟩ := v
+      have hed := (h.2.2.2 e sgn ed hx).2.1
+      have hl := hexp e sgn ed hx
+      have h1 := natVal_lt ed hed
+      have h2 : (10 : Nat) ^ ed.length ≤ 10 ^ 9 := Nat.pow_le_pow_right (by norm_num) hl
+      simp only
+      split <;> constructor <;> omega
+  refine ⟨by omega, ?_, ?_, ?_⟩
+  · have : (natVal (n.ip ++ n.fracDigits) : Int) < 10 ^ 18 := by exact_mod_cast lt_of_lt_of_le hm hpow
+    norm_num at this ⊢; omega
+  · norm_num at he ⊢; omega
+  · norm_num at he ⊢; omega
+
+
 end AslProofs.Csv
